@@ -176,7 +176,12 @@ def run_one(name, tests=False):
                    '--continue-on-collection-errors 2>&1 | tail -3' % wt, timeout=3000)
             out['tests_tail'] = r.stdout[-200:]
         env = dict(os.environ, VERIF_REPO=wt)
-        r = sh('cd %s && ./check %s --tier quick' % (VERIF, pid), env=env, timeout=1500)
+        try:
+            r = sh('cd %s && ./check %s --tier quick' % (VERIF, pid), env=env, timeout=1500)
+        except subprocess.TimeoutExpired:
+            sh("pkill -f 'VERIF_REPO=%s' ; pkill -f '[c]heck %s --tier quick'" % (wt, pid))
+            out['exit'] = 'timeout'
+            return name, out
         out['exit'] = r.returncode
         out['first'] = [l for l in r.stdout.splitlines() if ' x {' in l][:3]
         if r.returncode == 2:
